@@ -39,6 +39,16 @@ def from_averages(N, bc, sig_s, lam):
 OUTPUTS = ("sld_re", "sld_im", "sld_inc", "coh_xs", "abs_xs", "inc_xs", "penetration")
 
 
+class ConditionalResult(Exception):
+    """the calculator's result has a different *shape* on a data-dependent condition (e.g. (None, None, None) when b_c == 0)"""
+    def __init__(self, cond, a, b):
+        super().__init__(f"when {cond}: {a!r}; otherwise: {b!r}")
+        self.cond, self.a, self.b = cond, a, b
+
+
 def unpack(result):
+    from ptstat.symval import Phi
+    if isinstance(result, Phi):
+        raise ConditionalResult(result.cond, result.a, result.b)
     (a, b, c), (d, e, f), g = result
     return dict(zip(OUTPUTS, (a, b, c, d, e, f, g)))
